@@ -847,11 +847,11 @@ impl StringValidator {
     pub fn is_valid<S: AsRef<str>>(&self, s: S) -> bool {
         self.max_length
             .as_ref()
-            .map_or(true, |max| s.as_ref().len() as u32 <= *max)
+            .map_or(true, |max| s.as_ref().chars().count() as u32 <= *max)
             && self
                 .min_length
                 .as_ref()
-                .map_or(true, |min| s.as_ref().len() as u32 >= *min)
+                .map_or(true, |min| s.as_ref().chars().count() as u32 >= *min)
             && self
                 .pattern
                 .as_ref()
